@@ -137,6 +137,8 @@ def coq_op(L, op):
         return f"(OOpenId {n(op[1])} {L.s(op[2])})"
     if k == "Init":
         return f"(OInit {n(op[1])} {coq_bool(op[2])})"
+    if k == "Enter":
+        return f"(OInit {n(op[1])} false)"
     if k in ("Sp", "Cached", "IdPath", "Doc", "Copy", "DeepCopy", "Pickle"):
         return f"(O{k} {n(op[1])})"
     if k == "Repr":      # repr(job) shows cached_statepoint: the same model operation, read through another door
@@ -145,6 +147,13 @@ def coq_op(L, op):
         return f"(ODocReset {n(op[1])} {L.json(untyped(op[2]))})"
     if k == "WriteFile":
         return f"(OWriteFile {n(op[1])} {L.path(op[2])} {L.bytes_(bytes.fromhex(op[3]))})"
+    if k == "Link":
+        # a symbolic link in the job directory: links are outside the FS model - the model sees the file that is read
+        # through the link (same bytes); that the implementation keeps job directories independent is observed
+        return f"(OWriteFile {n(op[1])} {L.path(op[2])} {L.bytes_(bytes.fromhex(op[3]))})"
+    if k == "ViaAppend":
+        # bytes appended through the job's entry (open(path, 'ab')): in the model the file is rewritten with old + new
+        return f"(OWriteFile {n(op[1])} {L.path(op[2])} {L.bytes_(bytes.fromhex(op[4]))})"
     if k == "PlantDir":
         return f"(OPlantDir {L.path(op[1])})"
     if k == "PlantFile":
@@ -292,10 +301,62 @@ def coq_tree(L, entries):
     return coq_list(items, "(path * node)")
 
 
+# names of project directories and of their parent directory: valid directory names with glob / shell / regex / URL
+# metacharacters, spaces and non-ASCII characters (the model names the roots A, B; it does not care)
+DIRNAMES = ["A", "runs[v2]", "a?b", "x*", "{a,b}", "~t", "sp ace", "#h%20", "$d'q\"(p)", "é中", "[a-z]", "a.b+c^", "-dash", "w\\x"]
+
+
+def provenance(rng, roots=("A",)):
+    """the dimensions the model does not contain: directory names, how Project objects are obtained, cwd changes"""
+    return {"names": {r: rng.choice(DIRNAMES) for r in roots}, "parent": rng.choice(DIRNAMES),
+            "seed": rng.randint(0, 10 ** 9), "auto": True}
+
+
+def provenance_world(d, prov, **kw):
+    """A World below scratch directory `d` with varied provenance.  Everything lives EIGHT levels below `d`: a relative
+    project path (a few '..') evaluated from any working directory the harness - or a `with job:` block - switches to
+    stays inside the scratch directory, also when a changed implementation keeps such a path unresolved."""
+    top = os.path.join(d, *(["_"] * 8))
+    base = os.path.join(top, "P" + prov["parent"])
+    names, used = {}, set()
+    for m, r in sorted(prov["names"].items()):
+        while r in used:
+            r += "2"
+        used.add(r)
+        names[m] = r
+    first = names[sorted(names)[0]]
+    cwds = [base, os.path.join(top, "c0", "x"), os.path.join(top, "c1", "y", "z"), os.path.join(base, first),
+            os.path.join(top, "c2 [g]*", "q")]
+    for c in cwds:
+        os.makedirs(c, exist_ok=True)
+    os.chdir(cwds[prov["seed"] % len(cwds)])
+    return World(base, names=names, cwds=cwds, prov_seed=prov["seed"], auto_chdir=bool(prov.get("auto")), **kw)
+
+
+EXT = "_ext"      # directory (next to the projects) for link targets outside every project
+
+
+def link_mark(path, jobdir):
+    """suffix for the observed name of a symbolic link that is NOT self-contained: its target lies in another job
+    directory / project (or nowhere).  Links to files of the own job directory and to files outside every project
+    read like plain files."""
+    if not os.path.islink(path):
+        return ""
+    real = os.path.realpath(path)
+    if not os.path.exists(real):
+        return "@dangling-link"
+    jd = os.path.realpath(jobdir)
+    if real.startswith(jd + os.sep):
+        return ""
+    if (os.sep + WSN + os.sep) in real:
+        return "@link-into-another-job"
+    return ""
+
+
 class World:
     """Runs ops on the real signac inside directory `root`."""
 
-    def __init__(self, root, same_trees=True, names=None, cwds=None, prov_seed=None):
+    def __init__(self, root, same_trees=True, names=None, cwds=None, prov_seed=None, auto_chdir=False):
         """names: model root name -> real directory name below `root` (default: the same); cwds: directories (all
         inside the case's scratch directory) the harness-only op ChDir switches between; prov_seed: if given, Project
         objects after the first are obtained in varying ways (constructor / get_project / init_project, absolute /
@@ -309,6 +370,9 @@ class World:
         self.cwds = list(cwds or [])
         self.prov_rng = random.Random(prov_seed) if prov_seed is not None else None
         self.prov_log = []
+        self.auto_chdir = auto_chdir     # the process changes its working directory on its own between operations
+        self.proj_names = {}     # id(Project object) -> model root name (the objects stay alive in self.sessions)
+        self.entered = []        # handles inside a `with job:` block (harness ops Enter / Exit)
 
         logging.disable(logging.CRITICAL)
         self.root = root
@@ -323,6 +387,23 @@ class World:
         self.prev_sig = self.signature()
         self.same_trees = same_trees
 
+    def root_of(self, obj):
+        """model root name of a Project object / of a job handle's project (never computed from a possibly relative path)"""
+        p = getattr(obj, "_project", obj)
+        name = self.proj_names.get(id(p))
+        if name is None:
+            rel = os.path.relpath(p.path, self.root)
+            name = self.unnames.get(rel, rel)
+        return name
+
+    def leave_all(self):
+        """close every `with job:` block that is still open (end of a case)"""
+        while self.entered:
+            try:
+                self.entered.pop().close()
+            except Exception:  # noqa: BLE001
+                pass
+
     def real(self, name):
         return self.names.get(name, name)
 
@@ -335,7 +416,12 @@ class World:
         path = os.path.join(self.root, self.real(name))
         if self.prov_rng is None:
             return signac.init_project(path=path) if first else signac.Project(path)
-        rel = os.path.relpath(path, os.getcwd())
+        try:
+            here = os.getcwd()
+        except OSError:             # the working directory (a job directory) was removed
+            os.chdir(self.cwds[0])
+            here = os.getcwd()
+        rel = os.path.relpath(path, here)
         modes = ["init-abs", "init-rel"] if first else ["ctor-abs", "get-abs", "get-rel", "ctor-rel", "ctor-rel", "dotdot",
                                                          "slash", "init-rel", "rel-slash"]
         mode = self.prov_rng.choice(modes)
@@ -362,6 +448,8 @@ class World:
     def tree(self):
         out = []
         for proj in sorted(os.listdir(self.root)):
+            if proj == EXT:
+                continue
             ws = os.path.join(self.root, proj, WSN)
             if not os.path.isdir(ws):
                 continue
@@ -371,8 +459,14 @@ class World:
                 for d in dirnames:
                     out.append((rel + [d], "dir", ""))
                 for f in sorted(filenames):
-                    with open(os.path.join(dirpath, f), "rb") as fh:
-                        out.append((rel + [_TMP.sub("._TMP_", f)], "file", fh.read().hex()))
+                    fp = os.path.join(dirpath, f)
+                    jd = os.path.join(ws, os.path.relpath(dirpath, ws).split(os.sep)[0])
+                    mark = link_mark(fp, jd)
+                    data = b""
+                    if mark != "@dangling-link":
+                        with open(fp, "rb") as fh:
+                            data = fh.read()
+                    out.append((rel + [_TMP.sub("._TMP_", f) + mark], "file", data.hex()))
             cf = os.path.join(self.root, proj, DOTSIG, CACHEFN)
             if os.path.isfile(cf):
                 import gzip
@@ -388,6 +482,8 @@ class World:
         """Anything in the project directories that is neither the workspace, the config nor the cache file."""
         bad = []
         for proj in sorted(os.listdir(self.root)):
+            if proj == EXT:
+                continue
             base = os.path.join(self.root, proj)
             for dirpath, dirnames, filenames in os.walk(base):
                 rel = os.path.relpath(dirpath, base)
@@ -424,8 +520,14 @@ class World:
                     comps = ([] if rel == "." else rel.split(os.sep)) + [_TMP.sub("._TMP_", f)]
                     if comps in ([SPF], [DOCF]):
                         continue
-                    with open(os.path.join(dirpath, f), "rb") as fh:
-                        files.append([comps, fh.read().hex()])
+                    mark = link_mark(os.path.join(dirpath, f), job.path)
+                    data = b""
+                    if mark != "@dangling-link":
+                        with open(os.path.join(dirpath, f), "rb") as fh:
+                            data = fh.read()
+                    if mark:
+                        comps = comps[:-1] + [comps[-1] + mark]
+                    files.append([comps, data.hex()])
             jobs.append({"id": job.id, "sp": sp, "doc": doc, "files": files})
         try:
             p.check()
@@ -451,6 +553,9 @@ class World:
 
         k = op[0]
         H = self.handles
+        if self.auto_chdir and self.cwds and k not in ("Snap", "Tree", "Quiet", "ChDir", "Exit") and self.prov_rng.random() < 0.3:
+            # harness-level: the working directory changes between two operations (always inside the scratch area)
+            os.chdir(self.prov_rng.choice(self.cwds))
         try:
             if k == "NewSession":
                 path = os.path.join(self.root, self.real(op[1]))
@@ -463,6 +568,7 @@ class World:
                 else:
                     p = self.project(op[1])
                 self.sessions.append(p)
+                self.proj_names[id(p)] = op[1]
                 if op[1] not in self.roots:
                     self.roots.append(op[1])
                 return ["unit"]
@@ -498,6 +604,15 @@ class World:
             if k == "Init":
                 H[op[1]].init(force=op[2])
                 return ["unit"]
+            if k == "Enter":
+                # `with job:` - init() and chdir into the job directory (model: OInit); left again by the harness-only Exit
+                H[op[1]].open()
+                self.entered.append(H[op[1]])
+                return ["unit"]
+            if k == "Exit":
+                if self.entered:
+                    self.entered.pop().close()
+                return None
             if k == "Sp":
                 return ["json", typed(to_plain(H[op[1]].statepoint()))]
             if k == "Cached":
@@ -521,6 +636,29 @@ class World:
                 with open(fn, "wb") as fh:
                     fh.write(bytes.fromhex(op[3]))
                 return ["unit"]
+            if k == "Link":
+                # ["Link", h, rel, hex-of-the-content-seen-through-it, kind, target-rel]
+                fn = os.path.join(H[op[1]].path, *op[2])
+                os.makedirs(os.path.dirname(fn), exist_ok=True)
+                kind = op[4]
+                if kind == "abs":        # absolute target inside the job (job.fn(...))
+                    target = os.path.abspath(os.path.join(H[op[1]].path, *op[5]))
+                elif kind == "rel":      # relative target inside the job
+                    target = os.path.relpath(os.path.join(H[op[1]].path, *op[5]), os.path.dirname(fn))
+                else:                    # a file outside every project (inside the scratch area)
+                    ext = os.path.join(self.root, EXT)
+                    os.makedirs(ext, exist_ok=True)
+                    target = os.path.join(ext, "ext%d.bin" % len(os.listdir(ext)))
+                    with open(target, "wb") as fh:
+                        fh.write(bytes.fromhex(op[3]))
+                if os.path.lexists(fn):
+                    os.remove(fn)
+                os.symlink(target, fn)
+                return ["unit"]
+            if k == "ViaAppend":
+                with open(os.path.join(H[op[1]].path, *op[2]), "ab") as fh:
+                    fh.write(bytes.fromhex(op[3]))
+                return ["unit"]
             if k == "PlantDir":
                 os.makedirs(os.path.join(self.root, self.real(op[1][0]), *op[1][1:]), exist_ok=True)
                 return ["unit"]
@@ -542,16 +680,19 @@ class World:
                 j = copy.deepcopy(H[op[1]])
                 H.append(j)
                 self.sessions.append(j._project)
+                self.proj_names[id(j._project)] = self.root_of(H[op[1]])
                 return ["str", j.id]
             if k == "Pickle":
                 j = pickle.loads(pickle.dumps(H[op[1]]))
                 H.append(j)
                 self.sessions.append(j._project)
+                self.proj_names[id(j._project)] = self.root_of(H[op[1]])
                 return ["str", j.id]
             if k == "Pickle2":
                 a, b = pickle.loads(pickle.dumps([H[op[1]], H[op[2]]]))
                 H.extend([a, b])
                 self.sessions.append(a._project)
+                self.proj_names[id(a._project)] = self.root_of(H[op[1]])
                 return ["strs", [a.id, b.id]]
             if k == "Fresh":
                 import subprocess
